@@ -146,8 +146,7 @@ def run(tier):
     for c, r in zip(cases, out):
         chk.cov['evaluations'] += 1
         P = r.get('P', r.get('err', '?'))
-        # a chained stream read in streaming mode reports one hole per link boundary on the unmodified tree; that is C10's finding, not C20's
-        if not (P.startswith('ok') or P.startswith('bad:holes')):
+        if not P.startswith('ok'):
             chk.violation('streaming:' + c.split(' ', 3)[3] + ':' + P.split(':')[1], f'streaming handle {c}: {P}', {'case': c})
     if merr:
         chk.guard(False, 'replay determinism: %r' % (merr[:2],))
